@@ -95,6 +95,10 @@ def richardson_obligations(R, reg, src, orders):
     R.under_contract(src.func(RE.FILE, RE.CLS + ".subdiv_step"))
     for n in (1, 2, 4, 8, 16):
         RE.verify_subdiv_step(src, reg, n, prop=PID)
+    # the expansion T_m = Y + sum e_j 2^(-m j) presupposes that all passes integrate over one and the same interval: also when an adaptive
+    # base method shortened the first pass, in either time direction
+    for it in (2, 3, 4, 5):
+        RE.verify_common_interval(src, reg, it, prop=PID)
     for p in orders:
         for it in (2, 3, 4, 5):
             try:
